@@ -16,12 +16,19 @@ META = {
                    'the 14 epoch accessors, the for*Seconds/for*Days factories and the for*String parsers; range guard of '
                    'init() before any fill), E-ABS with inductively checked class invariants for every indexed store into a '
                    'fixed-size array, and E-TAB bounds on all 655 shipped zones (array lengths, anchor rules, letter indices, '
-                   'recorded transition buffer sizes, five-slot bound of the basic cache).',
+                   'recorded transition buffer sizes, five-slot bound of the basic cache); E-ABS interval analysis with '
+                   'memoised callee summaries and inlined isError() predicates for signed-overflow obligations on every +, - and * '
+                   'of the date/time value types (R8); year narrowing gate (R9); composite isError() truth tables (R7); cold-cache '
+                   'acceptance of init() on the corner dates of the supported years (R4-accept); def-use rule for the Python '
+                   'buffer-size estimator (R5-est).',
     'decided': 'no dereference of an untested nullable result; every indexed store/address into a fixed array is inside its '
                'capacity (given the listed, data-discharged exceptions); every epoch accessor/factory/parser tests its error '
-               'condition first; fill code runs only inside the supported year range; table-side counts and bounds',
-    'not_decided': 'absence of signed overflow for all argument values; that the recorded transitionBufSize really is the '
-                   'high-water mark (behavioural); absence of every other kind of undefined behaviour',
+               'condition first; fill code runs only inside the supported year range and init() accepts every date of that range; '
+               'table-side counts and bounds; no signed 32-bit overflow in the value types except at the constructs listed as known '
+               'findings (32-bit epoch-seconds range); a year outside 1873..2127 cannot wrap into range in a factory; composite '
+               'error flags; the estimator behind transitionBufSize sees the transitions of earlier matches',
+    'not_decided': 'that the recorded transitionBufSize really is the high-water mark for every zone and year (behavioural); '
+                   'undefined behaviour of other kinds (shifts, aliasing, lifetime) and overflow outside the seven value types',
     'assumptions': ['clang 14 parser/template instantiation', 'macro-disabled debug blocks (if (0)) are dead code',
                     'callees outside the repository (strlen, strncpy, memcpy, strchr) respect their size arguments'],
 }
